@@ -3,6 +3,7 @@ import PysnarkModel.Gen.Api
 import PysnarkModel.Lemmas.BranchInv
 import PysnarkModel.Lemmas.BranchObl
 import PysnarkModel.Lemmas.BranchGuard
+import PysnarkModel.Lemmas.BranchKinds
 /-!
 # C09 — oblivious if/elif/else, while and for compute what native control flow computes
 
@@ -17,7 +18,8 @@ with a secret bound and a public maximum, `while` with a public cap and an optio
 arbitrary nesting.  `runBlockT` is the model of the rendered Python source run against
 `pysnark/branching.py` (the merge at a block exit as `BranchContext.exit()` does it for every kind:
 identity shortcut, deep-copied snapshot that re-creates booleans and fixed-point numbers,
-element-wise merge of lists, fixed-point coercion, kind changes); `nativeRunT`
+element-wise merge of lists, fixed-point coercion, kind changes; a selection between two booleans is
+a boolean); `nativeRunT`
 (`Spec/Native.lean`) is the same program with native Python control flow on plain values (Python
 ints, exact multiples of `2^-r` for fixed point, lists).
 
@@ -27,7 +29,10 @@ ints, exact multiples of `2^-r` for fixed point, lists).
   outside `0 … max` (outside the domain of the property) the tracked variables at the end are
   exactly the native variables and stand for the same numbers (`RefV`: integers and booleans by
   value, fixed point by representation, lists element-wise; every tracked boolean is 0 or 1); no
-  context is left open and the guard is back to "true".  "The traced run completes" carries the
+  context is left open and the guard is back to "true".  Whatever the native run does: every variable
+  that the program never assigns ends with the TYPES it was created with (`initKinds`: `LinComb`,
+  `LinCombBool`, `LinCombFxp`, lists element-wise) — in particular a tracked boolean is still a
+  `LinCombBool` after all the blocks it lived through.  "The traced run completes" carries the
   side conditions of the library (a comparison raises when its operands leave the bit length,
   reading an unbound variable raises, binding a variable in only some arms raises) and of the model
   (operand kinds for which the library computes something else than Python — `LinComb < LinCombFxp`,
@@ -38,10 +43,16 @@ ints, exact multiples of `2^-r` for fixed point, lists).
 * `C09_untouched` — a variable holding secret integers (or lists of them) that a statement does not
   assign keeps its objects: value, wire expression and identity, whatever the conditions are.
   `C09_untouched_value` — a variable of ANY kind that a statement run under a true guard does not
-  assign ends with the number it had, and is coherent (`C09_sat`).  Its OBJECT changes when it is a
-  boolean or a fixed-point number: the snapshot of `BranchingValues.backup()` re-creates these, the
-  identity shortcut of `if_then_else` does not apply, one constraint is spent, and a boolean comes
-  back as a plain `LinComb` (`C09_cex_boolean_demoted`).
+  assign ends with the number it had and (holding secrets) with the types it had, and is coherent
+  (`C09_sat`).  Its OBJECT changes when it is a boolean or a fixed-point number: the snapshot of
+  `BranchingValues.backup()` re-creates these, the identity shortcut of `if_then_else` does not
+  apply and one constraint is spent.
+* `C09_kind_kept` — whatever the guards are and wherever the conditions go: a variable holding
+  secrets that a statement (block) does not assign keeps its types; `C09_boolean_usable` — so a
+  tracked boolean is accepted as the condition of a later `_if` / `_while` / `if_then_else`
+  (`C09_boolean_kept_regression`: the closed run of the repaired finding C09-boolean-demoted; before
+  the repair `if_then_else` returned `copy + cond*(b - copy)`, a plain `LinComb`, for two booleans and
+  the later block raised `RuntimeError('Wrong type for if_then_else condition')`).
 * `C09_sat` — every constraint emitted by a completed run holds on the recorded witness, every
   tracked scalar is coherent with its wire expression and every tracked boolean is 0 or 1 (all
   nesting depths: the effective guard of a nested block is the bitwise AND of the enclosing guard
@@ -61,6 +72,7 @@ def C09_refines_full : Prop :=
     s0.guard = none → s0.ignoreErrors = false →
     runBlockT init inputs finputs prog s0 = .ok (bs, s) →
     bs.stack = [] ∧
+    (∀ x, prog.assigns x = false → bs.bv.vals.kindOf x = initKinds init x none) ∧
     match nativeInit s0.resolution init inputs finputs with
     | .error _ => True          -- an initial fixed-point value is not a multiple of `2^-r`
     | .ok (E0, nc) =>
@@ -72,7 +84,7 @@ def C09_refines_full : Prop :=
 theorem C09_refines : C09_refines_full := by
   intro s0 init inputs finputs prog bs s hg hi h
   obtain ⟨hst, hpost⟩ := runBlockT_ref hg hi h
-  refine ⟨hst, ?_⟩
+  refine ⟨hst, fun x hx => runBlockT_kinds h x hx, ?_⟩
   cases hI : nativeInit s0.resolution init inputs finputs with
   | error e => trivial
   | ok p =>
@@ -96,7 +108,7 @@ theorem C09_refines_int (s0 : St) (init : List (Nat × Int)) (inputs : List Int)
     | .ok E => RefV s0.resolution bs.bv.vals E ∧ Live s0.resolution s
     | .error .uncapped => True
     | .error _ => False := by
-  obtain ⟨hst, hpost⟩ := C09_refines s0 _ inputs [] prog bs s hg hi h
+  obtain ⟨hst, -, hpost⟩ := C09_refines s0 _ inputs [] prog bs s hg hi h
   refine ⟨hst, ?_⟩
   have hI : nativeInit s0.resolution (init.map (fun kv => (kv.1, PTree.leaf (ILeaf.int kv.2)))) inputs []
       = .ok (init.foldl (fun e kv => e.set kv.1 (.leaf (.int kv.2))) [],
@@ -166,14 +178,48 @@ theorem C09_untouched_block (b : BBlock) (x : Nat) (env : BEnv) (bs bs' : BSt) (
   execBlock_untouched b x env bs bs' s s' hx hk h
 
 /-- **untouched variables of any kind** (booleans, fixed point, lists of anything): the variable
-ends with the NUMBER it had (its object may be a new one), tracked booleans are still 0 or 1 -/
+ends with the NUMBER it had (its object may be a new one), tracked booleans are still 0 or 1, and
+— whatever the native run does — a variable holding secrets ends with the TYPES it had: a boolean
+is still a `LinCombBool`, a fixed-point number a `LinCombFxp` -/
 theorem C09_untouched_value {r : Nat} (st : BStmt) (x : Nat) (env : BEnv) (nc : NCtx) (bs bs' : BSt) (s s' : St)
     (E : NEnv) (hx : st.assigns x = false) (hi : RefI r env nc) (hl : Live r s) (hr : RefV r bs.bv.vals E)
     (h : execStmt env st bs s = .ok (bs', s')) :
-    match nStmt nc st E with
+    (match nStmt nc st E with
     | .ok _ => bs'.bv.vals.valOf r x = bs.bv.vals.valOf r x ∧ bs'.bv.vals.bok
-    | .error _ => True :=
-  execStmt_untouched_value st x env nc bs bs' s s' E hx hi hl hr h
+    | .error _ => True) ∧
+    ((∀ t, bs.bv.vals.get? x = some t → t.isSecret = true) → bs'.bv.vals.kindOf x = bs.bv.vals.kindOf x) :=
+  ⟨execStmt_untouched_value st x env nc bs bs' s s' E hx hi hl hr h,
+   fun hsec => execStmt_kinds st x env bs bs' s s' hx (kindOf_sec hsec) h⟩
+
+/-- **types kept**, whatever the guard is and wherever the conditions go: a variable holding
+secrets (every tracked variable does: `_.x = …` is modelled for secrets only) that a statement does
+not assign has the same types afterwards — `LinComb`s, `LinCombBool`s, `LinCombFxp`s, lists
+element-wise -/
+theorem C09_kind_kept (st : BStmt) (x : Nat) (env : BEnv) (bs bs' : BSt) (s s' : St)
+    (hx : st.assigns x = false) (hk : ∀ t, bs.bv.vals.get? x = some t → t.isSecret = true)
+    (h : execStmt env st bs s = .ok (bs', s')) :
+    bs'.bv.vals.kindOf x = bs.bv.vals.kindOf x :=
+  execStmt_kinds st x env bs bs' s s' hx (kindOf_sec hk) h
+
+theorem C09_kind_kept_block (b : BBlock) (x : Nat) (env : BEnv) (bs bs' : BSt) (s s' : St)
+    (hx : b.assigns x = false) (hk : ∀ t, bs.bv.vals.get? x = some t → t.isSecret = true)
+    (h : execBlock env b bs s = .ok (bs', s')) :
+    bs'.bv.vals.kindOf x = bs.bv.vals.kindOf x :=
+  execBlock_kinds b x env bs bs' s s' hx (kindOf_sec hk) h
+
+/-- **a tracked boolean stays usable as a condition**: after any block (sequence of statements,
+arbitrarily nested, whatever its conditions were) that does not assign it, the variable evaluates
+to a `LinCombBool`, the type `_if` / `_elif` / `_while` / `_breakif` / `if_then_else` require of a
+condition (`condLC`; the repaired behaviour of finding C09-boolean-demoted) -/
+theorem C09_boolean_usable (b : BBlock) (x : Nat) (env : BEnv) (bs bs' : BSt) (s s' : St)
+    (hx : b.assigns x = false) (hb : bs.bv.vals.kindOf x = some (.leaf (some .bool)))
+    (h : execBlock env b bs s = .ok (bs', s')) :
+    bs'.bv.vals.kindOf x = some (.leaf (some .bool)) ∧
+    ∀ (env' : BEnv) (t : St), ∃ l, evalC env' bs'.bv (.var x) t = .ok (.lcb l, t) ∧ condLC (.lcb l) t = .ok (l, t) := by
+  have hk : bs'.bv.vals.kindOf x = some (.leaf (some .bool)) := by
+    rw [execBlock_kinds b x env bs bs' s s' hx (fun k hk' => by rw [hb] at hk'; cases hk'; rfl) h]
+    exact hb
+  exact ⟨hk, fun env' t => evalC_var_bool t hk⟩
 
 /-- **satisfaction and coherence** of every completed run, for every prime modulus -/
 theorem C09_sat (p : Nat) (hp : p.Prime) (bl res : Nat) (init : List (Nat × IVal)) (inputs : List Int)
@@ -259,11 +305,19 @@ theorem C09_cex_negative_bound :
       = some [(0, [3])] := by
   first | decide +kernel | fail "C09_cex_negative_bound: the closed run no longer evaluates to the recorded values"
 
-/-! ## a tracked boolean is demoted by every block it lives through -/
+/-! ## a tracked boolean lives through every block as a boolean (repaired finding C09-boolean-demoted) -/
+
+def satAll (s : St) : Bool :=
+  s.cons.all (fun c => (LC.eval s.assign c.1 * LC.eval s.assign c.2.1 - LC.eval s.assign c.2.2) % s.p == 0)
 
 /-- `if in0 == 1: x1 = x1 + 1` with `x0` a tracked boolean that the block does not touch -/
 def exDemote : BBlock :=
   .cons (.ifs (.cmp .eq (.inp 0) (.const 1)) (.cons (.assign 1 (.add (.var 1) (.const 1))) .nil) .endif) .nil
+
+/-- the same block, then `if x0: x1 = x1 + 1` with the tracked boolean as the condition -/
+def exDemoteThenUse : BBlock :=
+  .cons (.ifs (.cmp .eq (.inp 0) (.const 1)) (.cons (.assign 1 (.add (.var 1) (.const 1))) .nil) .endif)
+    (.cons (.ifs (.var 0) (.cons (.assign 1 (.add (.var 1) (.const 1))) .nil) .endif) .nil)
 
 def runKinds (init : List (Nat × IVal)) (inputs : List Int) (finputs : List (Int × Nat)) (prog : BBlock) (s0 : St) :
     Option (List (Nat × List Nat) × List (Nat × List Int) × Nat) :=
@@ -271,25 +325,29 @@ def runKinds (init : List (Nat × IVal)) (inputs : List Int) (finputs : List (In
   | .ok (bs, s) => some (bs.bv.vals.map (fun kv => (kv.1, tvalKinds kv.2)), bs.bv.vals.map (fun kv => (kv.1, tvalInts kv.2)), s.cons.length)
   | .error _ => none
 
-/-- FINDING (C09-boolean-demoted): a tracked `LinCombBool` that a block does not touch keeps its
-value 1 but comes out of the block as a plain `LinComb` (kind 1 instead of 2), at the price of one
-more constraint per merge (here 6 constraints against 3 with an integer in its place: the two merges of `_endif` and the
-boolean test of the initial value): the snapshot taken by
-`BranchingValues.backup()` is a NEW `LinCombBool`, `if_then_else` does not take its identity
-shortcut and returns `copy + cond*(b - copy)`.  Using `_.x0` as the condition of a later `_if` then
-raises (`RuntimeError: Wrong type for if_then_else condition`; the model stops with `unmodelled`),
-where the native program `if b: …` runs. -/
-theorem C09_cex_boolean_demoted :
+/-- REGRESSION STATEMENT of the repaired finding C09-boolean-demoted (`fix:` commit in `if_then_else`:
+a selection between two `LinCombBool`s returns `LinCombBool(ret, False)`).  A tracked `LinCombBool`
+that a block does not touch keeps its value 1 AND its type (kind 2; before the repair it came out as a
+plain `LinComb`, kind 1: the snapshot taken by `BranchingValues.backup()` is a new `LinCombBool`,
+`if_then_else` does not take its identity shortcut and returned `copy + cond*(b - copy)`).  The
+constraint count is what it was (6 against 3 with an integer in its place: the two merges of
+`_endif` and the boolean test of the initial value; the new constructor call adds none).  Using
+`_.x0` as the condition of a later `_if` now runs and gives the native result (`x1 == 6`; before the
+repair: `RuntimeError: Wrong type for if_then_else condition`, the model stopped with `unmodelled`),
+all constraints hold, and the native program ends with the same numbers. -/
+theorem C09_boolean_kept_regression :
     (runKinds [(0, .leaf (.bool 1)), (1, .leaf (.int 5))] [0] [] exDemote (St.init 97 3 8)
-      == some ([(0, [1]), (1, [1])], [(0, [1]), (1, [5])], 6)) = true ∧
+      == some ([(0, [2]), (1, [1])], [(0, [1]), (1, [5])], 6)) = true ∧
     (runKinds [(0, .leaf (.int 1)), (1, .leaf (.int 5))] [0] [] exDemote (St.init 97 3 8)
       == some ([(0, [1]), (1, [1])], [(0, [1]), (1, [5])], 3)) = true ∧
-    (match runBlockT [(0, .leaf (.bool 1)), (1, .leaf (.int 5))] [0] []
-        (.cons (.ifs (.cmp .eq (.inp 0) (.const 1)) (.cons (.assign 1 (.add (.var 1) (.const 1))) .nil) .endif)
-          (.cons (.ifs (.var 0) (.cons (.assign 1 (.add (.var 1) (.const 1))) .nil) .endif) .nil)) (St.init 97 3 8) with
-      | .error .unmodelled => true
-      | _ => false) = true := by
-  first | decide +kernel | fail "C09_cex_boolean_demoted: the closed run no longer evaluates to the recorded values"
+    (match runBlockT [(0, .leaf (.bool 1)), (1, .leaf (.int 5))] [0] [] exDemoteThenUse (St.init 97 3 8),
+        natVals 8 (nativeRunT 8 [(0, .leaf (.bool 1)), (1, .leaf (.int 5))] [0] [] exDemoteThenUse) with
+      | .ok (bs, s), some E =>
+        bs.bv.vals.map (fun kv => (kv.1, tvalKinds kv.2)) == [(0, [2]), (1, [1])] &&
+        bs.bv.vals.map (fun kv => (kv.1, tvalInts kv.2)) == [(0, [1]), (1, [6])] &&
+        E == [(0, [256]), (1, [6 * 256])] && satAll s && bs.stack.isEmpty
+      | _, _ => false) = true := by
+  first | decide +kernel | fail "C09_boolean_kept_regression: the closed run no longer evaluates to the recorded values"
 
 /-! ## non-vacuity -/
 
@@ -303,9 +361,6 @@ def exProg09 : BBlock :=
   .cons (.forr 0 (.inp 1) 2 (.cons (.assign 0 (.add (.var 0) (.loopvar 0))) .nil)) <|
   .cons (.whil (.cmp .ne (.var 0) (.const 5)) 2 (.cons (.assign 0 (.add (.var 0) (.const 1))) .nil) (some (.cmp .eq (.var 0) (.const 4)))) <|
   .cons (.ite 1 (.cmp .ne (.inp 0) (.const 0)) (.add (.var 0) (.const 1)) (.const 2)) .nil
-
-def satAll (s : St) : Bool :=
-  s.cons.all (fun c => (LC.eval s.assign c.1 * LC.eval s.assign c.2.1 - LC.eval s.assign c.2.2) % s.p == 0)
 
 /-- `C09_refines`, `C09_sat`: the run completes (first arm taken, loop of 2 rounds, while stops by its test),
 ends with the native values, and its constraints hold -/
